@@ -58,6 +58,7 @@ type FuncContract struct {
 	Pure       bool
 	Inline     bool
 	NoPanic    bool
+	SkipImpl     map[string]string // iface: implementations not verified (key -> reason), reported
 	CallbackLoop bool // extern: calls its closure argument any number of times
 	Functional bool // extern: result is a function of scalar args
 	Allocates  bool
@@ -435,7 +436,7 @@ func (cs *ContractSet) parseFile(file, pkgPath string) error {
 		switch word {
 		case "package":
 			continue
-		case "func", "iface", "extern":
+		case "func", "iface", "extern", "fnfield":
 			reset()
 			fc := &FuncContract{Kind: word, PkgPath: pkgPath, File: l.file, Line: l.line}
 			key := rest
@@ -465,9 +466,19 @@ func (cs *ContractSet) parseFile(file, pkgPath string) error {
 				}
 				cs.Funcs[pkgPath+" "+key] = fc
 			case "iface":
-				cs.Ifaces[pkgPath+" "+key] = fc
+				// "database/sql/driver.Valuer.Value": explicit package path
+				if n := strings.Count(key, "."); n >= 2 {
+					j := strings.LastIndex(key, ".")
+					i := strings.LastIndex(key[:j], ".")
+					fc.PkgPath = key[:i]
+					fc.Key = key[i+1:]
+					key = fc.Key
+				}
+				cs.Ifaces[fc.PkgPath+" "+key] = fc
 			case "extern":
 				cs.Externs[key] = fc
+			case "fnfield":
+				cs.Externs["fnfield "+key] = fc
 			}
 			cs.order = append(cs.order, fc)
 		case "spec":
@@ -593,6 +604,17 @@ func (cs *ContractSet) parseFile(file, pkgPath string) error {
 					cur.Inline = true
 				case "callback-loop":
 					cur.CallbackLoop = true
+				case "skip-impl":
+					f := strings.SplitN(rest, " ", 2)
+					if cur.SkipImpl == nil {
+						cur.SkipImpl = map[string]string{}
+					}
+					reason := "unspecified"
+					if len(f) > 1 {
+						reason = strings.TrimSpace(f[1])
+					}
+					cur.SkipImpl[f[0]] = reason
+					cs.Scan["skip-impl"]++
 				case "allocates":
 					cur.Allocates = true
 				default:
